@@ -477,6 +477,8 @@ def g4_g5_g6(rep, tms):
                                 tm.file, s.ln))
                 continue
             em = tm.ft.emitted(s.ty)
+            if not tm.ft.can_succeed(s.ty):
+                continue      # the step can only fail (its parser has no Ok exit): nothing is re-serialised
             if not em:
                 rep.add(Finding("G5", s.fn, "%s:%s" % (s.tag, G.short(s.ty)),
                                 "type %s emits no recognisable tag" % G.short(s.ty), tm.file, s.ln))
